@@ -278,6 +278,50 @@ func c15LateDrain(t *testing.T, rep *report.R) {
 // c15ManySubnets: isolation does not depend on how many subnets the limiter has seen. n distinct subnets (v4 and v6) each spend
 // their whole burst in the same instant; every one of them is admitted (it is that subnet's first request), and so are the first
 // requests of fresh subnets afterwards.
+// c15FarClock: a limiter that has been up for a long time - 1 day, 2^31 ms, 2^32 ms (49.7 days) give or take a second, 2^33 ms,
+// 400 days on the virtual clock, with the periodic clean-up running all along - still holds a subnet to its burst at one
+// instant, refills at its rate, and admits a fresh subnet.
+func c15FarClock(t *testing.T, rep *report.R) {
+	for _, up := range []time.Duration{24 * time.Hour, (1<<31 - 1000) * time.Millisecond, (1<<31 + 1000) * time.Millisecond, (1<<32 - 1000) * time.Millisecond,
+		(1<<32 + 1000) * time.Millisecond, (1<<33 + 1000) * time.Millisecond, 400 * 24 * time.Hour} {
+		synctest.Test(t, func(t *testing.T) {
+			const burst = 10
+			cl := NewClientLimiter(ClientLimiterOpts{Limit: 1, Burst: burst})
+			defer func() { cl.Close(); synctest.Wait() }()
+			a := netip.MustParseAddr("198.51.100.7")
+			cl.AllowN(a, time.Now(), 1) // known before the long wait
+			time.Sleep(up)
+			synctest.Wait()
+			desc := fmt.Sprintf("limiter up for %v (limit 1/s, burst %d)", up, burst)
+			rep.Eval("far-clock|" + up.String())
+			for _, addr := range []netip.Addr{a, netip.MustParseAddr("203.0.113.9")} {
+				now := time.Now()
+				admitted := 0
+				for i := 0; i < 5*burst; i++ {
+					if cl.AllowN(addr, now, 1) {
+						admitted++
+					}
+				}
+				if admitted != burst {
+					rep.Violate("C15:limiter:far-clock:burst", fmt.Sprintf("%d of %d requests of %s admitted at one instant, the burst is %d: %s", admitted, 5*burst, addr, burst, desc), map[string]any{"Phase": true})
+				}
+				time.Sleep(3 * time.Second)
+				synctest.Wait()
+				now = time.Now()
+				admitted = 0
+				for i := 0; i < 5*burst; i++ {
+					if cl.AllowN(addr, now, 1) {
+						admitted++
+					}
+				}
+				if admitted != 3 {
+					rep.Violate("C15:limiter:far-clock:refill", fmt.Sprintf("3 s after its bucket was emptied %d requests of %s are admitted at one instant (rate 1/s): %s", admitted, addr, desc), map[string]any{"Phase": true})
+				}
+			}
+		})
+	}
+}
+
 func c15ManySubnets(t *testing.T, rep *report.R, n int) {
 	synctest.Test(t, func(t *testing.T) {
 		cl := NewClientLimiter(ClientLimiterOpts{Limit: 1, Burst: 3})
@@ -409,6 +453,7 @@ func TestVerifC15(t *testing.T) {
 	c15Delays = saved
 	if rp := report.ReplayFile(); rp == nil {
 		c15LateDrain(t, rep)
+		c15FarClock(t, rep)
 		c15PhaseSweep(t, rep, report.ParamInt("PHASE_T", 260), report.ParamInt("PHASE_I", 40))
 		if sh, _ := report.Shard(); sh == 0 {
 			c15ManySubnets(t, rep, report.ParamInt("SUBNETS", 140000))
